@@ -27,13 +27,13 @@ func (w *bitWriter) put(v uint64, n int) {
 
 type vp9Frame struct {
 	showExisting bool // show_existing_frame = 1: the whole frame is the 1-2 byte header
-	data       []byte
-	profile    int
-	key        bool
-	width      int // coded width  (frame_width_minus_1 + 1), key frames only
-	height     int
-	colorSpace int
-	hdrBits    int
+	data         []byte
+	profile      int
+	key          bool
+	width        int // coded width  (frame_width_minus_1 + 1), key frames only
+	height       int
+	colorSpace   int
+	hdrBits      int
 }
 
 // genVP9Frame writes an uncompressed header (profiles 0-3, key / non-key, all colour
